@@ -205,6 +205,32 @@ theorem wrong_type_send_changes_nothing (s : Shared) (id : Nat) (late bf : Bool)
       some ({ s with rets := s.rets ++ [⟨.bad, id, .invalidType, late, sk⟩] }, rest) := by
   simp only [stepThread, finish, kindOf]
 
+/-- **A send that is not interleaved with anything** (API level): a thread whose whole program is
+one plain `send` runs to completion in 8 steps. -/
+theorem uninterleaved_send (g : G) (i : Nat) (h : g.threads[i]? = some [{ pc := .run, ops := [.send [] false] }]) :
+    (run g (List.replicate 8 (.t i))).sh =
+      (if stDraining ≤ g.sh.status ∨ g.sh.word.closed = true ∨ g.sh.rxOpen = false then
+        -- rejected by the status gate, by closed admission, or by the closed channel: the
+        -- message is handed back, nothing else changes
+        { g.sh with nextId := g.sh.nextId + 1,
+                    rets := g.sh.rets ++ [⟨.send, g.sh.nextId, .sendErr, g.sh.word.closed, okIds g.sh.rets⟩] }
+      else
+        { g.sh with nextId := g.sh.nextId + 1,
+                    queue := g.sh.queue ++ [.msg g.sh.nextId], enq := g.sh.enq ++ [.msg g.sh.nextId],
+                    rets := g.sh.rets ++ [⟨.send, g.sh.nextId, .ok, false, okIds g.sh.rets⟩] }) := by
+  rw [run_replicate 8 h]
+  obtain ⟨sh, threads⟩ := g
+  obtain ⟨⟨wc, wm, wn⟩, status, queue, rxOpen, rxStopped, sbo, enq, deqd, handled, flushed, dex, mdrop,
+    nextId, rets⟩ := sh
+  simp only
+  by_cases h1 : stDraining ≤ status
+  · simp [runThread, stepThread, startOp, finish, kindOf, h1]
+  · cases wc
+    · cases rxOpen
+      · simp [runThread, stepThread, startOp, finish, kindOf, h1, markerCond]
+      · simp [runThread, stepThread, startOp, finish, kindOf, h1, markerCond]
+    · simp [runThread, stepThread, startOp, finish, kindOf, h1]
+
 /-- The status word never decreases (`fetch_max`, and `drain`'s `fetch_update`). -/
 theorem status_monotone (g : G) (sched : List Tid) : g.sh.status ≤ (run g sched).sh.status :=
   (mono_run g sched).status
@@ -276,6 +302,7 @@ end C02
 #print axioms C02.real_time_order_handled
 #print axioms C02.nothing_handled_after_close
 #print axioms C02.wrong_type_send_changes_nothing
+#print axioms C02.uninterleaved_send
 #print axioms C02.status_monotone
 #print axioms C02.oracle_holds_of_model
 #print axioms C02.src_send_steps
